@@ -1,9 +1,11 @@
 package harness
 
 import (
+	"encoding/json"
 	"fmt"
 	"os"
 	"os/exec"
+	"path/filepath"
 	goruntime "runtime"
 	"strconv"
 	"strings"
@@ -31,13 +33,25 @@ type C03Case struct {
 	W *World
 	// CLI: queries (drawn) to run through the built binary; indices are taken modulo the number of candidates
 	CLI []C03Query
+	// Bootstrap: an earlier file (00-namespaces.yaml) declares the namespaces of the world once more, with OTHER labels;
+	// the later declaration is the one in effect (as after `kubectl apply -f dir`) - for list and for eval alike
+	Bootstrap map[string]string `json:",omitempty"`
 }
 
 func genC03(t *rapid.T) *C03Case {
 	kinds := []string{"Pod", "Pod", "Pod", "Owned:ReplicaSet", "Owned2:ReplicaSet", "Deployment", "StatefulSet"}
 	w := GenWorld(t, GenCfg{Admin: true, NoNamedRisk: true, Kinds: kinds, OmitNs: rapid.IntRange(0, 4).Draw(t, "omitns") == 0})
 	c := &C03Case{W: w}
+	if rapid.IntRange(0, 2).Draw(t, "bootstrap") == 0 {
+		c.Bootstrap = genLabels(t, "bootstraplab", 2)
+		if c.Bootstrap == nil {
+			c.Bootstrap = map[string]string{}
+		}
+	}
 	n := rapid.IntRange(0, 4).Draw(t, "ncli")
+	if c.Bootstrap != nil {
+		n += 3 // the built binary reads the directory itself: that is where a second declaration can be treated differently
+	}
 	for i := 0; i < n; i++ {
 		l := fmt.Sprintf("q%d", i)
 		q := C03Query{Src: rapid.IntRange(-1, 5).Draw(t, l+"s"), Dst: rapid.IntRange(0, 5).Draw(t, l+"d"), Addr: rapid.Uint32().Draw(t, l+"a"),
@@ -153,6 +167,19 @@ func checkC03(c *C03Case, st *VStats) *VFailure {
 	w := c.W
 	dir := w.WriteDir()
 	defer os.RemoveAll(dir)
+	if c.Bootstrap != nil {
+		var parts []string
+		for _, n := range w.Namespaces {
+			if n.HasObject {
+				b, _ := json.Marshal(c.Bootstrap)
+				parts = append(parts, fmt.Sprintf("apiVersion: v1\nkind: Namespace\nmetadata:\n  name: %s\n  labels: %s\n", n.Name, string(b)))
+			}
+		}
+		if len(parts) > 0 {
+			writeFile(filepath.Join(dir, "00-namespaces.yaml"), []byte(strings.Join(parts, "---\n")))
+			st.Class("namespaces declared twice (bootstrap file first, other labels)")
+		}
+	}
 	res := RunList(dir, ListOpts{})
 	if res.Panic != nil {
 		return &VFailure{Msg: fmt.Sprintf("list panicked: %v", res.Panic), Sig: "panic"}
